@@ -27,7 +27,8 @@ HASHES = [None, {'name': 'blake2b', 'length': 16}, {'name': 'blake2b', 'length':
           {'name': 'sha2', 'bits': 256}, {'name': 'sha2', 'bits': 384}, {'name': 'sha2', 'bits': 512}, {'name': 'sha3', 'bits': 224}, {'name': 'sha3', 'bits': 256},
           {'name': 'sha3', 'bits': 384}, {'name': 'sha3', 'bits': 512}]
 CIPHERS = [None, {'name': 'aes_gcm', 'key_bits': 128}, {'name': 'aes_gcm', 'key_bits': 192}, {'name': 'aes_gcm', 'key_bits': 256}, {'name': 'chacha20_poly1305'}]
-NAMES = ['a', 'b.bin', 'ünï', 'with space', '-dash', 'x.tmp', 'sub/c', 'sub/deep/d', 'e0', '日本']
+NAMES = ['a', 'b.bin', 'ünï', 'with space', '-dash', 'x.tmp', 'sub/c', 'sub/deep/d', 'e0', '日本',
+         b'caf\xe9.txt'.decode('utf-8', 'surrogateescape'), b'sub/\xff\xfe'.decode('utf-8', 'surrogateescape')]   # legal file names that are not valid UTF-8
 
 
 def gen_tree(r, mx, n=None):
@@ -123,6 +124,9 @@ def w_ref_reads(arg):
                     res['violations'].append(('c14:ref-read:chunk-location', 'chunk locations derived by the reference are absent: %r' % sorted(missing)[:2]))
         except F.FormatError as e:
             res['violations'].append(('c14:ref-read:undecodable', 'reference reader: %s' % e))
+        except (UnicodeError, ValueError) as e:
+            # a stored object (or a decrypted section) is not a JSON document in the documented encoding
+            res['violations'].append(('c14:ref-read:undecodable', 'reference reader: %s: %s' % (type(e).__name__, e)))
         res['summary'] = {'dir': 'replicat→ref', 'encrypted': encrypted, 'cipher': (cipher or {}).get('name'), 'key_bits': (cipher or {}).get('key_bits'),
                           'hash': hashing, 'params': [mn, mx], 'snapshots': len(snaps), 'files': nfiles, 'keys': nkeys, 'objects': len(objects)}
         res['nontrivial'] = nfiles >= 2 and len(objects) >= 4
